@@ -397,7 +397,7 @@ pub fn main(cli: &Cli) -> i32 {
     let mut ev = Evidence::new(PROP, &cli.tier, cli.seed, "fault_enumeration");
     let kf = KnownFindings::load("/verif/known_findings.json");
     let base = scratch_base().join("c30");
-    let workers = workers();
+    let workers = engine_a_workers();
     if let Some(path) = &cli.replay {
         return replay(path, &base);
     }
